@@ -572,7 +572,7 @@ class Scenario:
         elif kind == "stall":
             w.stall_all = op.get("on", True)
         elif kind in ("close", "shutdown"):
-            self._start_close(kind)
+            self._start_close(kind, op.get("cancel_ticks"))
         elif kind == "corrupt":
             self.corrupt_armed = {"where": op["where"], "frame": op.get("frame", 0), "pos": op.get("pos", 0), "bit": op.get("bit", 0)}
         elif kind == "add_listener":
@@ -600,9 +600,9 @@ class Scenario:
         else:
             raise ValueError(f"unknown op {kind}")
 
-    def _start_close(self, kind: str) -> None:
+    def _start_close(self, kind: str, cancel_ticks: int | None = None) -> None:
         loop, ctx = self.loop, self.ctx
-        rec = {"kind": kind, "t0": loop.time(), "t1": None, "exc": None}
+        rec = {"kind": kind, "t0": loop.time(), "t1": None, "exc": None, "cancelled_by_plan": False}
         self.closes.append(rec)
         self.triggers.append((loop.time(), kind))
         self.closed_at = loop.time()
@@ -620,12 +620,25 @@ class Scenario:
                 await (self.w.pairing.shutdown() if kind == "shutdown" else self.w.pairing.close())
             except BaseException as e:  # noqa: BLE001
                 rec["exc"] = type(e).__name__
-                ctx.violate("C11.close-raises", f"{kind}/{type(e).__name__}", f"{kind}() raised {e!r}")
+                if not (rec["cancelled_by_plan"] and isinstance(e, asyncio.CancelledError)):
+                    ctx.violate("C11.close-raises", f"{kind}/{type(e).__name__}", f"{kind}() raised {e!r}")
             finally:
                 rec["t1"] = loop.time()
                 ctx.obligations += 1
 
-        loop.create_task(runner())
+        task = loop.create_task(runner())
+        if cancel_ticks is not None:
+            # the application gives up on the call (its own time-out, an unload task being cancelled) n loop iterations in: the call
+            # may end with CancelledError, but a pairing that was told to close must still not keep a connection
+            def cancel(n=cancel_ticks):
+                if n > 0:
+                    loop.call_soon(cancel, n - 1)
+                elif not task.done():
+                    rec["cancelled_by_plan"] = True
+                    ctx.probe("close_call_cancelled_by_its_caller")
+                    task.cancel()
+
+            loop.call_soon(cancel)
 
     def _start_call(self, op: dict) -> None:
         loop, ctx, w = self.loop, self.ctx, self.w
